@@ -215,8 +215,12 @@ func (gb GenBank) String() string {
 	b.WriteString("DEFINITION  " + definition + ".\n")
 	b.WriteString("ACCESSION   " + gb.Fields.Accession)
 	if seg, ok := gb.Fields.Region.(gts.Segment); ok {
-		loc := gts.Range(gts.Unpack(seg))
-		b.WriteString(fmt.Sprintf(" REGION: %s", loc))
+		if head, tail := gts.Unpack(seg); head < tail {
+			loc := gts.Range(head, tail)
+			b.WriteString(fmt.Sprintf(" REGION: %s", loc))
+		} else {
+			b.WriteString(fmt.Sprintf(" REGION: %s", gts.Between(head)))
+		}
 	}
 	b.WriteByte('\n')
 	b.WriteString("VERSION     " + gb.Fields.Version + "\n")
